@@ -162,6 +162,11 @@ func runC12(p *Program, r *Result) {
 				continue
 			}
 			tb := p.TB(fn)
+			// bufio's ReadSlice and ReadLine fail or split a line at the size of whatever buffer the
+			// reader happens to have (the caller's, when the source already is a bufio.Reader)
+			for _, c := range callsToAny(fn, "(*bufio.Reader).ReadSlice", "(*bufio.Reader).ReadLine") {
+				r.Bad(fn.String(), "buffer-bound-read", r.pos(c), "a line is read with "+short(calleeName(c.Common()))+": how long a line may be then depends on the buffer of the reader the caller supplied")
+			}
 			for _, c := range callsTo(fn, "invoke (io.Reader).Read") {
 				n++
 				buf := short(tb.Term(c.Common().Args[0]).String())
